@@ -38,6 +38,8 @@ func runC13(c *Ctx) {
 	ruleExactAmounts(c, "R13g")
 	ruleR13h(c, "R13h", 3)
 	ruleTargetTypeAgrees(c, "R13j")
+	ruleHeadAdvancesWithEveryLog(c, "R13k")
+	ruleR07b(c)
 }
 
 // logTypeTables extracts the case tables of the three Go switches.
